@@ -1,6 +1,7 @@
 (** C10 — every split of a graph for parallel work covers each node exactly once, in
     order.  Statements and [Print Assumptions] only. *)
-From WG Require Import Base.Prelude Split.Model Split.Statements Split.SplitFacts Split.RangesFacts.
+From WG Require Import Base.Prelude Split.Model Split.Statements Split.SplitFacts Split.RangesFacts
+  Split.ArcList Split.ArcListFacts.
 Local Open Scope N_scope.
 
 (** [split::seq::Iter] (after the repair of the missing advance to the first cutpoint):
@@ -116,6 +117,19 @@ Print Assumptions C10_dcf_cuts_legal.
 Theorem C10_dcf_of_ok : S_dcf_of_ok.
 Proof. exact dcf_of_ok. Qed.
 Print Assumptions C10_dcf_of_ok.
+
+(** the cursor of [ArcListGraph] / [ParSortedGraph] lenders over arcs sorted by source:
+    skipping k nodes, cloning and reading m nodes gives nodes [k, k+m) of the denoted graph *)
+Theorem C10_arclist_lender : S_arclist_lender.
+Proof. exact arclist_lender. Qed.
+Print Assumptions C10_arclist_lender.
+
+Example C10_nonvacuous_arclist :
+  let arcs := [(0, 1); (0, 2); (1, 0); (3, 1); (3, 3)] in
+  nondec (map fst arcs) = true
+  /\ (match al_skip 1 4 (mkAl 0 arcs) with Some st => al_collect 3 4 st | None => [] end)
+     = [(1, [0]); (2, []); (3, [1; 3])].
+Proof. cbv zeta. split; vm_compute; reflexivity. Qed.
 
 (** non-vacuity: a loop-free view of a union of a 3-node and a 6-node graph, inside a
     permuted view, cut with a first cut > 0, a repeated cutpoint and a last cut < n *)
